@@ -1,24 +1,2 @@
-use xh::common::*;
-use xh::tree::*;
-use xot::Xot;
-fn main() {
-    let base = Rng::new(1);
-    let mut count = [0usize; 6];
-    for k in 0..400u64 {
-        let mut r = base.fork(k);
-        let mut xot = Xot::new();
-        let mut reg = Reg::new(&xot);
-        let pool = make_pool(&mut xot, &mut reg, true);
-        let cfg = GenCfg { max_nodes: 25, max_depth: 5, xml_space: 10, ..GenCfg::default() };
-        let t = gen_tree(&mut r, &cfg, &pool);
-        fn depth(a: &ANode) -> usize { match a { ANode::Doc(k) => 1 + k.iter().map(depth).max().unwrap_or(0), ANode::Elem { kids, .. } => 1 + kids.iter().map(depth).max().unwrap_or(0), _ => 1 } }
-        let d = depth(&t);
-        count[(d / 8).min(5)] += 1;
-        if d > 16 {
-            let root = build(&mut xot, &reg, &t);
-            let s = xot.serialize_xml_string(xot::output::xml::Parameters { indentation: Some(Default::default()), ..Default::default() }, root);
-            println!("case {} depth {} pretty {:?}", k, d, s.map(|x| x.lines().map(|l| l.len() - l.trim_start().len()).max()));
-        }
-    }
-    println!("{:?}", count);
-}
+// scratch probe: run with `cargo run --offline --example probe`
+fn main() {}
